@@ -60,7 +60,6 @@ gradient_walker_reset (pixman_gradient_walker_t *walker,
     pixman_gradient_stop_t *stops = walker->stops;
     float la, lr, lg, lb;
     float ra, rr, rg, rb;
-    float lx, rx;
 
     if (walker->repeat == PIXMAN_REPEAT_NORMAL)
     {
@@ -136,10 +135,7 @@ gradient_walker_reset (pixman_gradient_walker_t *walker,
     rg = (right_c->green * (1.0f/257.0f));
     rb = (right_c->blue * (1.0f/257.0f));
     
-    lx = left_x * (1.0f/65536.0f);
-    rx = right_x * (1.0f/65536.0f);
-    
-    if (FLOAT_IS_ZERO (rx - lx) || left_x == INT32_MIN || right_x == INT32_MAX)
+    if (left_x == right_x || left_x == INT32_MIN || right_x == INT32_MAX)
     {
 	walker->a_s = walker->r_s = walker->g_s = walker->b_s = 0.0f;
 	walker->a_b = (la + ra) / 510.0f;
@@ -149,12 +145,19 @@ gradient_walker_reset (pixman_gradient_walker_t *walker,
     }
     else
     {
-	float w_rec = 1.0f / (rx - lx);
+	/* The color is kept as "color at left_x plus slope * distance
+	 * from left_x" (see the pixel functions below). The distance and the
+	 * width of the segment are small exact integers, no matter how many
+	 * periods of a NORMAL or REFLECT gradient pos is away from [0, 1];
+	 * an intercept at 0 and a float position would lose all precision
+	 * there.
+	 */
+	float w_rec = 65536.0f / (float)(right_x - left_x);
 
-	walker->a_b = (la * rx - ra * lx) * w_rec * (1.0f/255.0f);
-	walker->r_b = (lr * rx - rr * lx) * w_rec * (1.0f/255.0f);
-	walker->g_b = (lg * rx - rg * lx) * w_rec * (1.0f/255.0f);
-	walker->b_b = (lb * rx - rb * lx) * w_rec * (1.0f/255.0f);
+	walker->a_b = la * (1.0f/255.0f);
+	walker->r_b = lr * (1.0f/255.0f);
+	walker->g_b = lg * (1.0f/255.0f);
+	walker->b_b = lb * (1.0f/255.0f);
 
 	walker->a_s = (ra - la) * w_rec * (1.0f/255.0f);
 	walker->r_s = (rr - lr) * w_rec * (1.0f/255.0f);
@@ -178,7 +181,7 @@ pixman_gradient_walker_pixel_float (pixman_gradient_walker_t *walker,
     if (walker->need_reset || x < walker->left_x || x >= walker->right_x)
 	gradient_walker_reset (walker, x);
 
-    y = x * (1.0f / 65536.0f);
+    y = (x - walker->left_x) * (1.0f / 65536.0f);
 
     f.a = walker->a_s * y + walker->a_b;
     f.r = f.a * (walker->r_s * y + walker->r_b);
@@ -198,7 +201,7 @@ pixman_gradient_walker_pixel_32 (pixman_gradient_walker_t *walker,
     if (walker->need_reset || x < walker->left_x || x >= walker->right_x)
 	gradient_walker_reset (walker, x);
 
-    y = x * (1.0f / 65536.0f);
+    y = (x - walker->left_x) * (1.0f / 65536.0f);
 
     /* Instead of [0...1] for ARGB, we want [0...255],
      * multiply alpha with 255 and the color channels
